@@ -29,8 +29,12 @@
   and on_end_request; the on_end_resource hook has an outcome.
 
   Not modelled: InternalRedirect, the response status / body (property C01/C09), several
-  applications, a handler that acquires a lock it already holds or releases one it does not hold
-  (`wellBehaved`), session actions inside a generator other than data access.
+  applications, session actions inside a generator other than data access.  A handler that acquires
+  a lock it already holds or releases one it does not hold IS modelled (RamSession: the re-entrant
+  count grows / `release_lock` raises; FileSession with `lock_timeout`: LockTimeout) — the theorem
+  `C13_released_at_end` is about handlers that do not (`wellBehaved`), `C13_double_acquire_leaks_ram`
+  shows what happens otherwise.  A failing 'after_request' engine listener does not keep `close()`
+  from running (`release_serving`: try / finally), so it is no dimension of the model.
 -/
 namespace CpModel.SessionReq
 
@@ -120,7 +124,10 @@ def runActs (p : Plan) : List Act → S → S × Out
     if !s.hasSess then (s, .exc) else       -- `cherrypy.session` proxies serving.session: AttributeError
     let (s1, o) := match a with
       | .touch => touch p s
-      | .acquire => (acquireLock s, .ok)
+      | .acquire =>
+        -- FileSession: a second FileLock on the path this request already holds never succeeds; with
+        -- `lock_timeout` the polling loop ends in LockTimeout (without it the request hangs: not a plan)
+        if p.file && decide (0 < s.held s.cur) then (s, .exc) else (acquireLock s, .ok)
       | .release => match releaseLock s with | some s1 => (s1, .ok) | none => (s, .exc)
       | .regen => regen p s
     match o with
